@@ -44,7 +44,7 @@ struct Variant {
 };
 
 struct Op {
-  enum Kind { kEdit, kTouch, kRm, kVariant, kNinja, kWrite, kMkdir, kRmLogRecord } kind = kEdit;
+  enum Kind { kEdit, kTouch, kRm, kVariant, kNinja, kWrite, kMkdir, kRmLogRecord, kDupLogRecord } kind = kEdit;
   std::string label;
   std::string path;
   std::string content;       // kWrite
